@@ -376,3 +376,138 @@ def mpsc_distribution(cases, results):
         if mpsc_run(c)[1]:
             d["stranded_in_model"] += 1
     return d
+
+
+# ---------------------------------------------------------------------------- C15: MergeSource
+
+
+def merge_case(scripts, tags, src):
+    srcs = [{"tag": t, "script": sc} for t, sc in zip(tags, scripts)]
+    polls = min(60, sum(len(sc) for sc in scripts) + len(scripts) + 2)
+    return {"k": "merge", "srcs": srcs, "polls": polls, "src": src}
+
+
+def number_items(scripts):
+    """give every Rdy a distinct item value"""
+    out, nxt = [], 1
+    for sc in scripts:
+        o = []
+        for st in sc:
+            if st[0] == "r":
+                o.append(["r", nxt])
+                nxt += 1
+            else:
+                o.append([st[0]])
+        out.append(o)
+    return out
+
+
+def all_scripts(maxlen):
+    res = [[]]
+    frontier = [[]]
+    for _ in range(maxlen):
+        frontier = [s + [[k]] for s in frontier for k in "rpe"]
+        res += frontier
+    return res
+
+
+def product(xs, k):
+    if k == 0:
+        yield []
+        return
+    for x in xs:
+        for rest in product(xs, k - 1):
+            yield [x] + rest
+
+
+def gen_merge(rng, tier, n):
+    cases = load_corpus("C15")
+    tagsets = [[5], [7, 3], [2, 9, 4], [8, 1, 6, 0]]
+    if tier == "thorough":
+        for k, maxlen in ((1, 6), (2, 4), (3, 2), (4, 2)):
+            scs = all_scripts(maxlen)
+            for combo in product(scs, k):
+                cases.append(merge_case(number_items(combo), tagsets[k - 1], "exh"))
+    cases.append(merge_case([], [], "rnd"))
+    for _ in range(n):
+        k = rng.choice([1, 2, 2, 3, 3, 3, 4, 4, 5])
+        tags = rng.sample(list(range(0, 12)), k)
+        dens = rng.choice([0, 1, 3, 6])  # pending density (out of 10)
+        scripts = []
+        for _ in range(k):
+            sc = []
+            for _ in range(rng.range(0, 6)):
+                r = rng.below(10)
+                if r < dens:
+                    sc.append(["p"])
+                elif rng.chance(1, 12):
+                    sc.append(["e"])
+                else:
+                    sc.append(["r"])
+            scripts.append(sc)
+        cases.append(merge_case(number_items(scripts), tags, "rnd"))
+    return cases
+
+
+def g_sstep(st):
+    return {"r": "Rdy %d" % (st[1] if len(st) > 1 else 0), "p": "Pend", "e": "End"}[st[0]]
+
+
+def g_srcs(srcs):
+    return g_lst(["mkSrc %d %s" % (s["tag"], g_lst([g_sstep(st) for st in s["script"]])) for s in srcs])
+
+
+def g_mobs(o):
+    r = o["r"]
+    if r[0] == "rdy":
+        rr = "MReady (%d, %d)" % (r[1], r[2])
+    elif r[0] == "none":
+        rr = "MNone"
+    elif r[0] == "pend":
+        rr = "MPending"
+    else:
+        rr = "MPanic"
+    return "(%s, %s, %s, %s)" % (rr, g_nat(o["cur"]), g_nat(o["len"]), g_lst(["%d" % t for t in o["polled"]]))
+
+
+def merge_term(case, res):
+    if "obs" not in res or len(res["obs"]) != case["polls"]:
+        return 3
+    return "(chk15 %s %s)" % (g_srcs(case["srcs"]), g_lst([g_mobs(o) for o in res["obs"]]))
+
+
+def shrink_merge(case):
+    cands = []
+    srcs = case["srcs"]
+    for i in range(len(srcs)):
+        cands.append(dict(case, srcs=srcs[:i] + srcs[i + 1:], src="shrunk"))
+    for i, s in enumerate(srcs):
+        sc = s["script"]
+        for j in range(len(sc)):
+            s2 = dict(s, script=sc[:j] + sc[j + 1:])
+            cands.append(dict(case, srcs=srcs[:i] + [s2] + srcs[i + 1:], src="shrunk"))
+    if case["polls"] > 1:
+        cands.append(dict(case, polls=case["polls"] - 1, src="shrunk"))
+    return cands
+
+
+def merge_distribution(cases, results):
+    d = {"nsrc": {}, "steps": {"r": 0, "p": 0, "e": 0}, "src": {}, "results": {},
+         "ended_mid_round": 0, "script_len": {}}
+    for c, r in zip(cases, results):
+        k = str(len(c["srcs"]))
+        d["nsrc"][k] = d["nsrc"].get(k, 0) + 1
+        d["src"][c.get("src", "?").split(":")[0]] = d["src"].get(c.get("src", "?").split(":")[0], 0) + 1
+        for s in c["srcs"]:
+            d["script_len"][str(len(s["script"]))] = d["script_len"].get(str(len(s["script"])), 0) + 1
+            for st in s["script"]:
+                d["steps"][st[0]] += 1
+        prev = len(c["srcs"])
+        mid = False
+        for o in r.get("obs", []):
+            d["results"][o["r"][0]] = d["results"].get(o["r"][0], 0) + 1
+            if 0 < o["len"] < prev:
+                mid = True
+            prev = o["len"]
+        d["ended_mid_round"] += 1 if mid else 0
+    return d
